@@ -4,6 +4,8 @@
 EXTENDS Names, TLC, Json
 CONSTANTS Kinds, Prefixes, Modes, Elsewheres, SvNames, Idents
 VARIABLE c
+\* kinds sas_struct / sas_enum: the target is shared through typeshare(serialized_as = "..") (generated as an alias) and carries a
+\* container rename_all, which is about its fields / variants and never about its own name
 \* mode: single-file or folder output. elsewhere: in folder mode, ANOTHER crate defines a type with the same Rust identifier
 \* as the target (plain, or carrying its own serde(rename)); the references under test are to the crate's own type, so the
 \* required name does not change.
